@@ -466,23 +466,16 @@ def str_method(ev: Ev, s: Val, name: str, args: list[Val], n: ast.Call) -> Val:
 		ev.exit_if(z3.Length(sep.term) == 0, 'ValueError')
 		return Val(TList(STR), split_fn(ev)(x, sep.term))
 	if name in ('strip', 'lstrip', 'rstrip'):
-		chars = args[0] if args else ev.lift(' \t\n\r\x0b\x0c')
-		if not chars.is_conc():
-			raise EngineError('strip with symbolic chars')
-		cls = z3.Union(*[z3.Re(c) for c in chars.conc]) if len(chars.conc) > 1 else z3.Re(chars.conc)
-		star = z3.Star(cls)
-		a = ev.eng.fresh(INT, 'strip_a').term if name != 'rstrip' else z3.IntVal(0)
-		b = ev.eng.fresh(INT, 'strip_b').term if name != 'lstrip' else ln
-		ev.st.assume(z3.And(0 <= a, a <= b, b <= ln))
-		ev.st.assume(z3.InRe(z3.SubString(x, 0, a), star))
-		ev.st.assume(z3.InRe(z3.SubString(x, b, ln - b), star))
+		chars = ev.coerce(args[0], STR) if args else ev.lift(' \t\n\r\x0b\x0c')
+		# deterministic recursive definitions (the same term in code and in contract text)
+		lf = ev.rec('rf_lstrip', [STR, STR], STR, lambda a, cs, me: z3.If(z3.And(z3.Length(a) > 0, z3.Contains(cs, z3.SubString(a, 0, 1))), me(z3.SubString(a, 1, z3.Length(a) - 1), cs), a))
+		rf = ev.rec('rf_rstrip', [STR, STR], STR, lambda a, cs, me: z3.If(z3.And(z3.Length(a) > 0, z3.Contains(cs, z3.SubString(a, z3.Length(a) - 1, 1))), me(z3.SubString(a, 0, z3.Length(a) - 1), cs), a))
+		r = x
 		if name != 'rstrip':
-			ev.st.assume(z3.Implies(a < b, z3.Not(z3.InRe(z3.SubString(x, a, 1), cls))))
+			r = lf(r, chars.term)
 		if name != 'lstrip':
-			ev.st.assume(z3.Implies(a < b, z3.Not(z3.InRe(z3.SubString(x, b - 1, 1), cls))))
-		if name == 'strip':
-			ev.st.assume(z3.Implies(a == b, a == ln))
-		return Val(STR, z3.SubString(x, a, b - a))
+			r = rf(r, chars.term)
+		return Val(STR, r)
 	if name == 'join':
 		lst = args[0] if args else None
 		if lst is None:
@@ -736,8 +729,10 @@ def call_lemma(ev: Ev, name: str, args: list[Val]) -> Val:
 	args = [ev.coerce(a, t) for a, t in zip(args, ptys)]
 	env = {p: a for p, a in zip(params, args)}
 	sub = Ev(ev.eng, ev.fn, State(env, list(ev.st.pc)), ev.oracle, 'spec')
+	g = z3.And(*ev.guards) if ev.guards else None
 	for r in lm.requires:
-		ev.eng.oblige(ev.fn, f'lemma-pre:{name}', ev.st, sub.truth(ast.parse(r, mode='eval').body), r)
+		t = sub.truth(ast.parse(r, mode='eval').body)
+		ev.eng.oblige(ev.fn, f'lemma-pre:{name}', ev.st, z3.Implies(g, t) if g is not None else t, r)
 	# recursive use inside its own proof: the measure must decrease
 	cur = getattr(ev.fn, 'lemma_name', None)
 	if cur == name:
@@ -745,9 +740,11 @@ def call_lemma(ev: Ev, name: str, args: list[Val]) -> Val:
 			raise EngineError(f'recursive lemma {name} without decreases')
 		m_new = sub.eval(ast.parse(lm.decreases, mode='eval').body).term
 		m_old = ev.fn.lemma_measure  # type: ignore[attr-defined]
-		ev.eng.oblige(ev.fn, f'lemma-variant:{name}', ev.st, z3.And(m_new >= 0, m_new < m_old), lm.decreases)
+		vt = z3.And(m_new >= 0, m_new < m_old)
+		ev.eng.oblige(ev.fn, f'lemma-variant:{name}', ev.st, z3.Implies(g, vt) if g is not None else vt, lm.decreases)
 	for e in lm.ensures:
-		ev.st.assume(sub.truth(ast.parse(e, mode='eval').body))
+		t = sub.truth(ast.parse(e, mode='eval').body)
+		ev.st.assume(z3.Implies(g, t) if g is not None else t)
 	return ev.lift(True)
 
 
@@ -826,6 +823,8 @@ def self_param(fs: source.FuncSrc) -> str | None:
 def modular_call(ev: Ev, fs: source.FuncSrc, c: Contract, args: list[Val], kwargs: dict[str, Val], recv: Val | None, recv_name: str | None, want_self: bool) -> Val:
 	callee = FnCtx(ev.eng, fs, c, ev.fn.prop, ev.fn.depth + 1)
 	env = bind_params(ev, fs, args, kwargs, callee)
+	for k, v in c.consts.items():
+		env[k] = py_to_val(v)
 	for g, t in c.ghost_params.items():
 		env[g] = ev.eng.fresh(ev.eng.tenv.parse(t), f'ghost_{g}')  # type: ignore[arg-type]
 	pre = State(dict(env), list(ev.st.pc))
